@@ -74,7 +74,25 @@ import os as _os
 TRACE = bool(_os.environ.get("PYVC_TRACE"))
 
 
+_HQ_PROBE = None
+
+
 def _has_quant(e):
+    """does the formula contain a quantifier / lambda?  (z3's own probe: C side, no python traversal)"""
+    global _HQ_PROBE
+    try:
+        if z3.is_bool(e):
+            if _HQ_PROBE is None:
+                _HQ_PROBE = z3.Probe("has-quantifiers")
+            g = z3.Goal()
+            g.add(e)
+            return _HQ_PROBE(g) != 0
+    except z3.Z3Exception:
+        pass
+    return _has_quant_py(e)
+
+
+def _has_quant_py(e):
     seen = set()
     stack = [e]
     while stack:
@@ -203,6 +221,7 @@ class Path:
         self.qf = z3.Solver()          # quantifier-free part of the path condition (feasibility pre-check)
         self.qf.set("timeout", 2000)
         self.pc = []
+        self.pc_has_quant = False
         self.counter = 0
         self.solver_s = 0.0
         self.ended = None
@@ -227,6 +246,8 @@ class Path:
         self.pc.append(phi)
         if not _has_quant(phi) and not _heavy_len(phi):
             self.qf.add(phi)
+        else:
+            self.pc_has_quant = True
 
     def assume_bg(self, phi):
         """assume a quantified *background axiom* (theory of an uninterpreted symbol).  Proof obligations see it;
@@ -303,7 +324,10 @@ class Path:
                 qfs = [f for f in allf if not _has_quant(f)]
                 if not _has_quant(c):
                     s = z3.Solver()
-                    s.set("timeout", max(4 * self.ver.feas_timeout_ms, 400))
+                    if getattr(self.ver, "feas_rlimit", None):
+                        s.set("rlimit", 4 * self.ver.feas_rlimit)     # deterministic budget (see the note below)
+                    else:
+                        s.set("timeout", max(4 * self.ver.feas_timeout_ms, 400))
                     for f in qfs:
                         s.add(f)
                     s.add(c)
@@ -319,10 +343,17 @@ class Path:
                 self.qf.pop()
                 if r == z3.unsat:
                     return False
-                if r == z3.sat and getattr(self, "bg_ids", None) and not any(_has_quant(f) for f in self._feas_pc()):
-                    return True     # a model of everything except background axioms: feasible as far as we check
+                if r == z3.sat and not self.pc_has_quant:
+                    # the whole path condition (background axioms aside, see assume_bg) is quantifier free:
+                    # the incremental answer is final
+                    return True
             s = z3.Solver()
-            s.set("timeout", self.ver.feas_timeout_ms)
+            if getattr(self.ver, "feas_rlimit", None):
+                # a contract-specific feasibility budget is a deterministic z3 resource limit, not a wall-clock timeout:
+                # thousands of very short timer expirations per run occasionally crash z3's timer thread (SIGSEGV)
+                s.set("rlimit", self.ver.feas_rlimit)
+            else:
+                s.set("timeout", self.ver.feas_timeout_ms)
             for f in self._feas_pc():
                 s.add(f)
             s.add(c)
@@ -377,6 +408,18 @@ class Path:
         self.assume(c if d else z3.Not(c))
         return d
 
+    def choice(self):
+        """demonic binary choice of the environment (e.g. "this I/O call fails"): both outcomes are possible by
+        construction, so no feasibility query and no path-condition literal is needed"""
+        i = len(self.taken)
+        if i < len(self.prefix):
+            d = self.prefix[i]
+        else:
+            self.ver.push_work(self.taken + [False])
+            d = True
+        self.taken.append(d)
+        return d
+
     def prove(self, phi, name, kind="assert", where="", assume_form=None):
         """obligation: pc => phi.  Conjunctions are split into one query per conjunct.
         assume_form: an equivalent formula better suited as a hypothesis (skolemised, with triggers); it
@@ -396,6 +439,69 @@ class Path:
             self.assume(assume_form)
         return ok
 
+    def _sliced_prove(self, p):
+        """retries after an `unknown` on *subsets* of the hypotheses (sound: hypotheses are only dropped):
+        rel1 / rel2 = the quantified facts that share an uninterpreted function or array symbol with the goal
+        (directly / through one intermediate fact), sliced = without the multi-variable quantified facts; finally
+        the full set under another random seed.  z3's quantifier instantiation is chaotic on goals whose context
+        holds several axiom families (comprehension + permutation + order facts) that the goal does not need."""
+        if _os.environ.get("PYVC_NO_SLICE"):
+            return False
+
+        def syms(f):
+            out, seen, st = set(), set(), [f]
+            while st:
+                x = st.pop()
+                if x.get_id() in seen:
+                    continue
+                seen.add(x.get_id())
+                if z3.is_quantifier(x):
+                    st.append(x.body())
+                elif z3.is_app(x):
+                    d = x.decl()
+                    if d.kind() == z3.Z3_OP_UNINTERPRETED and (x.num_args() > 0 or z3.is_array(x)):
+                        out.add(d.name())
+                    st.extend(x.children())
+            return out
+
+        quant = [(f, syms(f)) for f in self.pc if _has_quant(f)]
+        plain = [f for f in self.pc if not _has_quant(f)]
+        g0 = syms(p)
+        rel1 = [f for f, sy in quant if sy & g0]
+        g1 = set(g0)
+        for f, sy in quant:
+            if sy & g0:
+                g1 |= sy
+        rel2 = [f for f, sy in quant if sy & g1]
+        keep = [f for f in self.pc if not (z3.is_quantifier(f) and f.is_forall() and f.num_vars() >= 2)]
+        plans = []
+        if len(rel1) < len(quant):
+            plans.append(("rel1", plain + rel1, 0))
+        if len(keep) != len(self.pc):
+            plans.append(("sliced", keep, 0))
+        if len(rel1) < len(rel2) < len(quant):
+            plans.append(("rel2", plain + rel2, 0))
+        plans.append(("seed1", self.pc, 1))
+        for tag, hyps, seed in plans:
+            t0 = time.time()
+            s = z3.Solver()
+            s.set("timeout", max(2000, self.ver.timeout_ms // 2))
+            if seed:
+                s.set("random_seed", seed)
+            for f in hyps:
+                s.add(f)
+            s.add(z3.Not(p))
+            r = s.check()
+            dt = time.time() - t0
+            self.solver_s += dt
+            self.ver.solver_s += dt
+            self.ver.queries += 1
+            if TRACE:
+                print("   [retry %s %.2fs %s]" % (tag, dt, r))
+            if r == z3.unsat:
+                return True
+        return False
+
     def prove1(self, phi, name, kind="assert", where=""):
         """obligation: pc => phi.  Records the verdict, then assumes phi."""
         self.ver.obligation_sites.add(name)
@@ -408,6 +514,20 @@ class Path:
             self.ver.record(Obligation(name, kind, "proved", "trivial", path=list(self.taken), backend="simplify", where=where))
             return True
         t0 = time.time()
+        wo = getattr(self, "witness_ors", {}).get(phi.get_id())
+        if wo is not None:
+            # exists_fn: a disjunction over candidate witnesses; any single disjunct suffices
+            saved_to = self.ver.timeout_ms
+            self.ver.timeout_ms = min(saved_to, 5000)
+            try:
+                for d in wo[1]:
+                    if all(self._check(z3.Not(part))[0] == z3.unsat for part in _split_conj(d)):
+                        self.ver.record(Obligation(name, kind, "proved", path=list(self.taken), seconds=time.time() - t0, where=where))
+                        if kind != "post":
+                            self.assume(p)
+                        return True
+            finally:
+                self.ver.timeout_ms = saved_to
         r, m = self._check(z3.Not(p))
         dt = time.time() - t0
         dump = _os.environ.get("PYVC_DUMP")
@@ -430,16 +550,23 @@ class Path:
             self.ver.record(Obligation(name, kind, "failed", detail=str(p)[:2000], model=str(m)[:4000], inputs=inputs,
                                        path=list(self.taken), seconds=dt, where=where))
         else:
-            # unknown: try the fallback portfolio on the dumped goal
-            ok, backend = self.ver.fallback_prove(self.pc, p)
+            # unknown: first retry on a *subset* of the hypotheses (sound: dropping hypotheses can only lose proofs):
+            # without the multi-variable quantified facts (order / distinctness axioms), whose instantiation
+            # often drowns goals that do not need them; then the fallback portfolio on the dumped goal
+            ok, backend = self._sliced_prove(p), "z3-sliced"
+            if not ok:
+                ok, backend = self.ver.fallback_prove(self.pc, p)
             if ok:
                 self.ver.record(Obligation(name, kind, "proved", path=list(self.taken), seconds=time.time() - t0,
                                            backend=backend, where=where))
-                self.assume(p)
+                if kind != "post" and not getattr(self, "_no_assume", False):
+                    self.assume(p)
                 return True
             self.ver.record(Obligation(name, kind, "unknown", detail=getattr(self, "last_reason", "") + " :: " + str(p)[:1500],
                                        path=list(self.taken), seconds=dt, where=where))
-        self.assume(p)
+        if kind != "post":
+            # postconditions are never hypotheses of later obligations (a refuted / undecided one even less)
+            self.assume(p)
         return False
 
 
